@@ -1,5 +1,5 @@
 (* Props/C08.v — pinned statements for property C08 (derived Encode emits exactly the documented wire format). *)
-From MC Require Import Bytes Cbor Encoder Types DeriveSchema DeriveEnc DeriveDoc DeriveKnown DeriveCompat DeriveFacts DeriveDocFacts DeriveInvFacts DeriveClosed.
+From MC Require Import Bytes Cbor Encoder Types DeriveSchema DeriveEnc DeriveDoc DeriveKnown DeriveCompat DeriveFacts DeriveDocFacts DeriveInvFacts DeriveInvSchema DeriveClosed.
 Local Open Scope N_scope.
 
 (* For every schema the macros accept, every definition d and every value v the derived encoder accepts:
@@ -22,13 +22,18 @@ Theorem C08_format : forall Sc, schema_ok Sc = true -> schema_all leaf_ok Sc ->
   exists e, doc_tree Sc d v = Some e /\ flat cs = ser (prefer e) /\ wf (prefer e) = true.
 Proof. exact gen_encode_doc_closed. Qed.
 
-(* Declaration order of fields and of variants, the n/b choice and the named/tuple dshape do not influence the
-   bytes: two definitions whose non-skipped (field, value) pairs are permutations of each other (borrow flags
-   erased), with the same attributes otherwise, encode identically.  Restriction: the definitions the fields
-   refer to (rec) are shared, i.e. only the definition being encoded is reordered.
-   GOAL (C08_invariance): the same for a schema in which every definition is reordered simultaneously, the
-   nested values being reordered accordingly (gen_encode Sc' d v' = gen_encode Sc d v for related Sc/Sc', v/v'). *)
-Theorem C08_invariance_partial : forall rec d d' df df' v v',
+(* Declaration order of fields and of variants, the n/b choice and the named/tuple shape never influence the
+   bytes, in any number of definitions of a schema at once: if Sc' is a reordering of Sc and v' is v reordered
+   accordingly (Model/DeriveCompat.v `reordered`: in every struct / variant body the non-skipped (field, value)
+   pairs are a permutation of each other, borrow flags erased, nested values related recursively; variants are
+   matched by index), the derived encoders of the two schemas write the same bytes.  Field and type names do not
+   exist in the model; the harness checks renaming metamorphically (DMETA). *)
+Theorem C08_invariance : forall Sc Sc' d v v', schema_ok Sc = true -> schema_ok Sc' = true ->
+  reordered Sc Sc' d v v' -> gen_encode Sc d v = gen_encode Sc' d v'.
+Proof. intros Sc Sc' d v v' H H'. exact (gen_encode_reordered Sc Sc' H H' (S d) d v v'). Qed.
+
+(* the definition-level core: one definition reordered, the definitions it refers to shared *)
+Theorem C08_invariance_def : forall rec d d' df df' v v',
   def_ok d df = true -> def_ok d' df' = true -> same_def df df' v v' ->
   enc_def rec df v = enc_def rec df' v'.
 Proof. exact enc_def_perm. Qed.
@@ -51,7 +56,7 @@ Example C08_variant_nil_example :
              /\ doc_bytes Sc 0 (VVar 0 (VList [VNone; VNat 1])) = Some [130; 0; 161; 1; 1].
 Proof. vm_compute. repeat split. eexists. repeat split. Qed.
 
-(* the relation of C08_invariance_partial is inhabited by a non-trivial instance *)
+(* the relation of C08_invariance_def is inhabited by a non-trivial instance *)
 Example C08_invariance_example :
   let f0 := mkfield 0 false None CoDefault false false (FTy (TyU B8)) in
   let f1 := mkfield 1 true (Some 7) CoDefault true false (FTy (TyOpt TyStr)) in
@@ -62,7 +67,28 @@ Proof.
   cbn. apply Permutation.perm_swap.
 Qed.
 
+(* `reordered` is inhabited by a non-trivial instance: a struct holding an Option of another struct, both reordered *)
+Example C08_invariance_schema_example :
+  let a := mkfield 0 false None CoDefault false false (FTy (TyU B8)) in
+  let b := mkfield 1 true (Some 7) CoDefault true false (FTy (TyOpt TyStr)) in
+  let o := mkfield 0 false None CoDefault true false (FOpt (FRef 0)) in
+  let k := mkfield 3 false None CoDefault false false (FTy TyBool) in
+  let Sc  := [DStruct None None false DsNamed [a; b]; DStruct (Some AsMap) None false DsNamed [o; k]] in
+  let Sc' := [DStruct None None false DsTuple [eraseb b; a]; DStruct (Some AsMap) None false DsNamed [k; o]] in
+  reordered Sc Sc' 1 (VList [VSome (VList [VNat 3; VNone]); VBool true]) (VList [VBool true; VSome (VList [VNone; VNat 3])]).
+Proof.
+  cbv zeta. unfold reordered. cbn [reordered_f nth_error]. constructor; [reflexivity|].
+  split; [reflexivity|]. split; [reflexivity|]. cbn [decl f_skip].
+  eexists. split; [apply Permutation.perm_swap|]. constructor.
+  - split; [reflexivity|]. cbn. reflexivity.
+  - constructor; [|constructor]. split; [reflexivity|]. cbn [f_codec fst snd f_ty fty_rel]. split; [reflexivity|].
+    cbn [reordered_f nth_error]. constructor; [reflexivity|]. split; [reflexivity|]. split; [reflexivity|]. cbn [decl f_skip eraseb].
+    eexists. split; [apply Permutation.perm_swap|]. constructor; [split; [reflexivity|]; cbn; reflexivity|].
+    constructor; [|constructor]. split; [reflexivity|]. cbn. reflexivity.
+Qed.
+
 Print Assumptions C08_format_gen.
 Print Assumptions C08_format.
-Print Assumptions C08_invariance_partial.
+Print Assumptions C08_invariance.
+Print Assumptions C08_invariance_def.
 Print Assumptions C08_alias_nil_refuted.
